@@ -223,6 +223,24 @@ PROPS = {
         ],
         "not_covered": ["StrongEquivalenceTask::decompose", "Problem::add_theory", "decompose_independent/sequential"],
     },
+    "C16": {
+        "units": ["tptpnum", "ensure", "ext", "subst", "tau", "nat", "outline", "strong", "gamma", "break", "simp_int", "apply", "problem", "prover", "files"],
+        "level": "other",
+        "property_obligations": ["numeral_arm", "callsite_roles_checked_before_routing"],
+        "carriers": [],
+        "explanation": "What contracts can decide of C16: (1) every executable function under contract in any unit (listed under coverage.exec_functions_panic_free; extracted from the working tree on this run) is proved free of "
+                       "panic!/unreachable!/unwrap-on-None/expect/out-of-range indexing and slicing/arithmetic overflow/non-termination (where a decreases clause is given) UNDER ITS STATED PRECONDITION, for all inputs; "
+                       "(2) the numeral arm of the TPTP integer-term printer is panic-free for EVERY isize (no precondition); (3) a call-site obligation: whatever ensure_specification_roles_are_supported accepts "
+                       "satisfies the entry condition under which the unreachable!() arms of the routing step are unreachable. NOT decided: the first sentence of C16 (arbitrary byte strings through the pest-generated parsers and clap), "
+                       "numeral conversion in the parser (`parse().unwrap()`), functions not under contract (e.g. choose_fresh_global_variables' `max_taken_var + i`), and the entry conditions of other contracted functions at their real call sites.",
+        "assumptions": [
+            "parsing stage (pest VM, translate_pair numeral conversion) and command-line glue: NOT covered",
+            "preconditions of contracted functions are assumed at their call sites except where a call-site obligation is listed",
+            "T10/T11: std contracts of isize::abs / isize::unsigned_abs",
+            "hangs: only functions with a `decreases` clause are proved terminating (apply_fixpoint is explicitly not)",
+        ],
+        "not_covered": ["parser stage", "clap", "functions outside the units", "call sites without a listed obligation"],
+    },
     "C17": {
         "units": ["subst"],
         "level": "proof",
@@ -383,6 +401,7 @@ def run_property(pid, cfg, tier, seed, bless=False, t0=None):
             "property_obligations": [f for f in ledger if f["function"].split("::")[-1] in prop_obl or f["function"] in prop_obl],
             "carrier_obligations": [f for f in ledger if f["function"] in carriers],
             "functions_under_contract": [i for i in items if " fn " in (" " + i["item"])],
+            "exec_functions_panic_free": sorted({f"{f['unit']}::{f['function']}" for f in ledger if f["mode"] == "exec" and f["success"]}),
             "types_extracted": [i["item"] for i in items if " fn " not in (" " + i["item"])],
             "extraction_drops": "derives, use lines, test modules, impl_node! (Display/FromStr/Node), doc comments inside types, and every function not named in the unit template",
             "bounded": cfg.get("bounded", []),
